@@ -197,7 +197,7 @@ def main(run: core.Run, only=None):
     run.drive([{"chunk": "nearsquare", "lengths": [float(x) for x in SIDES], "bs": [float(x) for x in BMIN + BMAX + [0.7, 1.1, 20.0]]}],
               family="nearsquare")
     run.drive([{"chunk": "rounding", "b": b, "ks": [k], "gens": ["rectangle", "birectangle", "bizoned"]}
-               for b in ((0.3, 3.3) if quick else (0.1, 0.3, 0.7, 1.1, 3.3)) for k in range(2, 41)], family="float-rounding")
+               for b in ((0.3, 3.3) if quick else (0.1, 0.3, 0.7, 1.1, 3.3)) for k in (range(2, 41, 2) if quick else range(2, 41))], family="float-rounding")
     return run.finish(
         rule="complete lattice of (length, width, b_min, b_max_x, b_max_y) and (length, b); one evaluation = one candidate field "
              "checked by the geometry oracle; non-trivial = lattice point other than the square lot at the smallest spacing",
